@@ -196,27 +196,67 @@ def _skipped(ln):
     return "| skip-env" in ln
 
 
-def e2e_post(lines, kind):
+def _records(lines, kind):
+    return [t for ln in _e2e(lines, kind) for t in ln.split("|", 1)[1].split() if t.startswith("R;")]
+
+
+def _fld(t, k):
+    m = re.search(r";%s=([^;]*)" % k, t)
+    return m.group(1) if m else ""
+
+
+def full_run(lines):
+    """floors apply to generated runs only (a replay re-executes a handful of cases)"""
+    return len(lines) >= 1000
+
+
+def e2e_post(lines, kind, floors):
     """Scenarios whose session could not be built (no loopback ports / machine stalled during setup)
     observe nothing.  A few are tolerated and reported; more than max(3, 2 %) means the end-to-end tie
-    was not exercised: the check fails."""
+    was not exercised: the check fails.  [floors]: (description, predicate on a record, minimum) --
+    what the evidence claims the e2e tie exercises must really have been exercised."""
+    if not full_run(lines):
+        return []
     e = _e2e(lines, kind)
     sk = [ln for ln in e if _skipped(ln)]
-    if e and len(sk) > max(3, len(e) // 50):
-        return [("diff", sk[0], "diff e2e tie not exercised: %d of %d scenarios could not start (%s)"
-                 % (len(sk), len(e), sk[0].split("|", 1)[1].strip()))]
     if not e:
         return [("diff", kind, "diff e2e tie not exercised: the runner produced no %s scenario" % kind)]
-    return []
+    if len(sk) > max(3, len(e) // 50):
+        return [("diff", sk[0], "diff e2e tie not exercised: %d of %d scenarios could not start (%s)"
+                 % (len(sk), len(e), sk[0].split("|", 1)[1].strip()))]
+    out = []
+    if len(e) - len(sk) < 200:
+        out.append(("diff", kind, "diff e2e floor: only %d %s scenarios ran (floor 200)" % (len(e) - len(sk), kind)))
+    shapes = {ln.split()[1] for ln in e if not _skipped(ln) and len(ln.split()[1]) == 1}
+    if len(shapes) < 14:
+        out.append(("diff", kind, "diff e2e floor: only %d of the 14 fixed-shape scenarios ran" % len(shapes)))
+    recs = _records(lines, kind)
+    for what, pred, floor in floors:
+        n = sum(1 for t in recs if pred(t))
+        if n < floor:
+            out.append(("diff", kind, "diff e2e floor: %d logical requests %s (floor %d)" % (n, what, floor)))
+    return out
+
+
+def _nframes(t):
+    return 0 if _fld(t, "fr") == "-" else len(_fld(t, "fr").split(","))
+
+
+E6_FLOORS = [
+    ("not idempotent with a speculative policy through a pager", lambda t: _fld(t, "idem") == "0" and _fld(t, "spec") != "-" and _fld(t, "api") in ("qi", "ei"), 40),
+    ("not idempotent with a speculative policy", lambda t: _fld(t, "idem") == "0" and _fld(t, "spec") != "-", 150),
+    ("idempotent with a speculative policy", lambda t: _fld(t, "idem") == "1" and _fld(t, "spec") != "-", 150),
+    ("with more than one frame", lambda t: _nframes(t) > 1, 300),
+    ("with a cut connection", lambda t: "/drop" in t, 15),
+    ("at a serial consistency", lambda t: _fld(t, "cl") in ("Serial", "LocalSerial"), 40),
+    ("that failed", lambda t: _fld(t, "res").startswith("X"), 150),
+]
 
 
 def e2e_coverage(lines, kind):
     e = _e2e(lines, kind)
-    recs = [t for ln in e for t in ln.split("|", 1)[1].split() if t.startswith("R;")]
-
-    def fld(t, k):
-        m = re.search(r";%s=([^;]*)" % k, t)
-        return m.group(1) if m else ""
+    recs = _records(lines, kind)
+    fld = _fld
 
     nfr = [0 if fld(t, "fr") == "-" else len(fld(t, "fr").split(",")) for t in recs]
     apis = {}
@@ -234,11 +274,28 @@ def e2e_coverage(lines, kind):
         "e2e_requests_idempotent_with_speculative_policy": sum(
             1 for t in recs if fld(t, "idem") == "1" and fld(t, "spec") != "-"),
         "e2e_requests_with_a_cut_connection": sum(1 for t in recs if "/drop" in t),
+        "e2e_requests_with_max_retry_count_0": sum(1 for t in recs if fld(t, "spec").startswith("0:")),
+        "e2e_in_attempt_reprepares_merged": sum(int(m.group(1)) for ln in e for m in [re.search(r"\| env:\d+:rp(\d+)", ln)] if m),
     }
 
 
+KIND_FLOORS = {"X1": 30000, "X2": 60000, "X3": 800000, "F": 300000, "R": 150000}
+
+
 def post(lines, verdicts):
-    return [("diff", "census " + b[:60], "diff census: " + b) for b in census()] + e2e_post(lines, "E6")
+    out = [("diff", "census " + b[:60], "diff census: " + b) for b in census()] + e2e_post(lines, "E6", E6_FLOORS)
+    if full_run(lines):
+        kinds = {}
+        for ln in lines:
+            k = ln.split(" ", 1)[0]
+            kinds[k] = kinds.get(k, 0) + 1
+        for k, floor in KIND_FLOORS.items():
+            if kinds.get(k, 0) < floor:
+                out.append(("diff", k, "diff floor: %d %s cases (floor %d)" % (kinds.get(k, 0), k, floor)))
+        rp = sum(int(m.group(1)) for ln in lines if ln.startswith("E6 ") for m in [re.search(r"\| env:\d+:rp(\d+)", ln)] if m)
+        if rp < 5:
+            out.append(("diff", "E6", "diff e2e floor: %d in-attempt re-prepares (UNPREPARED + re-execute) observed (floor 5)" % rp))
+    return out
 
 
 def extra_coverage(lines, verdicts):
@@ -274,6 +331,7 @@ SPEC = {
     "coq_targets": ["Props/C06.vo", "Extract/ExC06.vo"],
     "bin": "c06",
     "sizes": {"quick": 300000, "thorough": 6000000},
+    "min_cases": {"quick": 1200000, "thorough": 6000000},
     "search_n": 2000000,
     "rule": ("X1 = exhaustive: every RequestAttemptError / DbError variant x field values "
              "{i32::MIN,-1,0,1,2,3,4,i32::MAX} x 9 write types x 11 consistencies x idempotent x 3 policies on a "
